@@ -15,6 +15,7 @@ import (
 	"github.com/GuanceCloud/platypus/pkg/errchain"
 	"github.com/GuanceCloud/platypus/pkg/inimpl/guancecloud/input"
 	"github.com/antchfx/xmlquery"
+	"github.com/antchfx/xpath"
 )
 
 func XMLChecking(ctx *runtime.Task, funcExpr *ast.CallExpr) *errchain.PlError {
@@ -92,7 +93,6 @@ func XML(ctx *runtime.Task, funcExpr *ast.CallExpr) *errchain.PlError {
 		l.Debug(err)
 		return nil
 	}
-	// xmlquery already caches the compiled expression for us.
 	dest, err := queryXML(doc, xpathExpr)
 	if err != nil {
 		l.Debug(err)
@@ -122,5 +122,12 @@ func queryXML(doc *xmlquery.Node, expr string) (node *xmlquery.Node, err error) 
 			node, err = nil, fmt.Errorf("XPath expr %s: %v", expr, r)
 		}
 	}()
-	return xmlquery.Query(doc, expr)
+	// compiled for this call: xmlquery's process-wide cache of compiled expressions
+	// hands out copies that still share the state of a parenthesised node set,
+	// (//b)[1], with every other evaluation of the same text
+	compiled, err := xpath.Compile(expr)
+	if err != nil {
+		return nil, err
+	}
+	return xmlquery.QuerySelector(doc, compiled), nil
 }
